@@ -24,9 +24,23 @@ PUNCT = set('[]{}()+-*/%^<>=!')
 BUILTINS = set(progs.BUILTIN_PARAMS)
 
 
-def compile_program(text):
+# texts that are rejected in the middle of a loop, a routine, a matrix block, an expression, a call
+POISONS = ['repeat 2 begin nosuch end', 'define f begin repeat 3 begin hue nosuch end end',
+           'set "Candle" begin stage row 1 column', 'repeat all as x begin repeat 2 begin print {x +',
+           'define g with a begin if {a > 0} begin return nosuch end end', 'print [round',
+           'set "Candle" begin stage row 0 nosuch', 'units raw define m 5 assign v nosuch']
+
+
+def compile_program(text, history=None):
+    """compile `text` with a new parser — or, with `history`, with a parser that has just been
+    given (and has rejected) that other text, as a ScriptJob that is loaded twice does"""
     from bardolph.parser.parse import Parser
     parser = Parser()
+    if history is not None:
+        try:
+            parser.parse(history)
+        except Exception:  # noqa  (C06's business)
+            pass
     try:
         ok = parser.parse(text)
     except Exception as ex:  # noqa
@@ -337,6 +351,18 @@ def main():
                               'the same tokens laid out differently ({}) give {}'.format(mode, what),
                               {'original': ' '.join(tokens), 'relayout': text})
                 break
+        # the token sequence is ALL that compilation depends on: the same text given to a parser
+        # whose previous text was rejected half-way compiles to the same program
+        if ok:
+            poison = POISONS[i % len(POISONS)]
+            got = compile_program(' '.join(tokens), history=poison)
+            stats['relayout_modes']['after-rejected-text'] = stats['relayout_modes'].get('after-rejected-text', 0) + 1
+            if got != base:
+                ok = False
+                what = 'rejected: ' + str(got[1])[:80] if got[0] != 'accept' else 'different program'
+                chk.violation('compile-depends-on-previous-text',
+                              'the same text gives {} when the parser\'s previous text was {!r}'.format(what, poison),
+                              {'previous': poison, 'text': ' '.join(tokens)})
         # optional braces / brackets: same program up to the two proved peephole equivalences
         braced = with_braces(rng, prog)
         got = compile_program(' '.join(all_tokens(braced)))
